@@ -65,6 +65,35 @@ EXEMPT = {
     ("Point", "data_label"): "documented in DataLabel: 'A data label ... is created on first access'",
 }
 
+# a documented creating accessor is only exempt while it WOULD create: when the predicate the documentation points
+# to says the content already exists, reading it is an ordinary read and must not change anything
+EXEMPT_UNLESS = {
+    ("Slide", "notes_slide"): "has_notes_slide",
+    ("Chart", "chart_title"): "has_title",
+    ("_BaseAxis", "axis_title"): "has_title",
+    ("CategoryAxis", "axis_title"): "has_title",
+    ("ValueAxis", "axis_title"): "has_title",
+    ("DateAxis", "axis_title"): "has_title",
+    ("AxisTitle", "text_frame"): "has_text_frame",
+    ("ChartTitle", "text_frame"): "has_text_frame",
+    ("DataLabel", "text_frame"): "has_text_frame",
+}
+
+
+def _exempt_now(obj, cls, name):
+    for key in ((cls.__name__, name), (_defining_class(cls, name), name)):
+        if key in EXEMPT:
+            pred = EXEMPT_UNLESS.get(key)
+            if pred is not None:
+                try:
+                    if getattr(obj, pred) is True:
+                        return False
+                except Exception:  # noqa: BLE001
+                    pass
+            return True
+    return False
+
+
 ENTRIES = ("all", "slides", "layouts", "masters")
 ORDERS = ("fwd", "rev")
 MAX_OBJECTS = 60000
@@ -175,7 +204,7 @@ def walk(prs, entry="all", order="fwd", attribute=False):
             res.capped = True
             break
         names = [n for n in dir(cls) if not n.startswith("_") and isinstance(_desc(cls, n), (property, lazyproperty))
-                 and (cls.__name__, n) not in EXEMPT and (_defining_class(cls, n), n) not in EXEMPT]
+                 and not _exempt_now(obj, cls, n)]
         if order == "rev":
             names.reverse()
         step = restricted.get(id(obj))
